@@ -134,21 +134,32 @@ def sweep(ctx, texts, flagsets, want, layer, line_check=None):
     return list(best.values()), stats
 
 
-def replay_findings(ctx, flags_default):
-    """Replays every open finding's stored witness first; prints KNOWN-FINDING when it still fails."""
+def replay_findings(ctx, flags_default, line_check=None):
+    """Replays the stored witnesses first. An open finding that still fails prints KNOWN-FINDING.
+    A fixed finding suppresses nothing: if its witness fails again it is returned as a failure."""
     wd = common.make_workdir(ctx, "bb-findings")
+    regress = []
+    n = 0
     for f in ctx.findings:
-        if f.get("status", "open") != "open" or "input" not in f:
+        if "input" not in f:
             continue
-        name = "kf.rb"
+        n += 1
+        name = "kf%d.rb" % n
         blackbox.write_input(wd, name, f["input"])
         fl = f.get("flags", flags_default)
         rc, so, se = common.run_ti(ctx.ti, [name] + fl, wd)
         c = blackbox.classify(rc, so, se, name)
-        still = (f["kind"] == "panic" and c == "panic") or (f["kind"] == "hang" and c in ("hang", "hard-timeout")) or \
-                (f["kind"] == "badline" and c == "ok" and blackbox.bad_lines(so, name))
-        if still:
-            common.known_finding(ctx, f, "%s at %s (%s)" % (f["kind"], f.get("site"), f.get("what", "")))
+        bad = (line_check or blackbox.bad_lines)(so, name) if c == "ok" else []
+        if f.get("status", "open") == "open":
+            still = (f.get("kind") == "panic" and c == "panic") or (f.get("kind") == "hang" and c in ("hang", "hard-timeout")) or \
+                    (f.get("kind") == "badline" and bad)
+            if still:
+                common.known_finding(ctx, f, "%s at %s (%s)" % (f.get("kind"), f.get("site"), f.get("what", "")))
+        elif c != "ok" or bad:
+            regress.append({"kind": "regression-of-fixed-finding", "finding": f.get("id"), "commit": f.get("commit"), "outcome": c,
+                            "flags": fl, "input": f["input"], "detail": (so + se)[-800:], "key": ["regress", f.get("id")]})
+    ctx.cov["layers"]["regression-corpus"] = {"runs": n, "distinct_nontrivial": n}
+    return regress
 
 
 def tok_ops(ctx, n, bcs):
